@@ -158,6 +158,14 @@ func classifyPrefix(p *irc.Prefix, v *c12View) prefixInfo {
 	if p == nil {
 		return prefixInfo{kind: "none"}
 	}
+	// nick!user@host is split at the FIRST '@' by the parser; a user name may contain '@' (USER x@y),
+	// the host the server derives from the session never does: split at the last one
+	if k := strings.LastIndex(p.Host, "@"); k >= 0 {
+		q := *p
+		q.User = p.User + "@" + p.Host[:k]
+		q.Host = p.Host[k+1:]
+		p = &q
+	}
 	switch {
 	case strings.HasPrefix(p.Host, "robust/0x"):
 		var id uint64
